@@ -87,6 +87,9 @@ pub struct FCase {
     /// separate (differently protected) mappings directly below / above the crash-ip mapping
     #[serde(default)]
     pub ip_neighbors: (bool, bool),
+    /// take the dump twice with the same writer and judge the second image
+    #[serde(default)]
+    pub second_dump: bool,
 }
 
 pub struct Obs {
@@ -284,6 +287,17 @@ pub fn run_case(c: &FCase) -> Result<Obs, RunErr> {
     });
     let mut w = make_writer(pid, &opts);
     let mut dest = Dest::new(vec![], 0);
+    if c.second_dump && exiters.is_empty() {
+        // a writer may be reused: the request judged below is then the second one
+        let mut first = Dest::new(vec![], 0);
+        match with_failspots(failmask, || run_dump(&mut w, &mut first)) {
+            DumpOutcome::Panic(l, m) => return Err(RunErr::Panic(l, m)),
+            _ => {}
+        }
+        if !t.wait_settled(&spec) {
+            return Err(RunErr::Inconclusive("target did not settle between two dumps".into()));
+        }
+    }
     let out = with_failspots(failmask, || with_hook(hook, || run_dump(&mut w, &mut dest)));
     let img = match out {
         DumpOutcome::Ok(v) => v,
@@ -375,8 +389,9 @@ pub fn case_strategy(max_threads: usize, min_threads: usize) -> impl Strategy<Va
         proptest::bool::weighted(0.25),
         any::<bool>(),
         (any::<bool>(), any::<bool>()),
+        proptest::bool::weighted(0.25),
     )
-        .prop_map(|(mut threads, blamed, crash, limit, app_maps, app, ip_map_pages, stop_failspot, cue_exiters, ip_neighbors)| {
+        .prop_map(|(mut threads, blamed, crash, limit, app_maps, app, ip_map_pages, stop_failspot, cue_exiters, ip_neighbors, second_dump)| {
             let mut burners = 0;
             for t in threads.iter_mut() {
                 if t.kind == K_SPINNER || t.kind == K_NULLSP {
@@ -386,7 +401,7 @@ pub fn case_strategy(max_threads: usize, min_threads: usize) -> impl Strategy<Va
                     }
                 }
             }
-            FCase { threads, blamed, crash, limit, app_maps, app, ip_map_pages, stop_failspot, cue_exiters, ip_neighbors }
+            FCase { threads, blamed, crash, limit, app_maps, app, ip_map_pages, stop_failspot, cue_exiters, ip_neighbors, second_dump }
         })
 }
 
